@@ -52,7 +52,7 @@ Ops ==
   \cup {[op |-> "putmany", bs |-> bs] : bs \in ManyArgs}
   \cup {[op |-> "finalize"], [op |-> "finalize_ro"], [op |-> "close"], [op |-> "discard"]}
   \cup {[op |-> "reopen", how |-> h] :
-          h \in {"same", "roots_other", "roots_extra", "roots_fewer", "dpad", "version"}}
+          h \in {"same", "roots_other", "roots_codec", "roots_extra", "roots_fewer", "dpad", "version"}}
 
 (* storage.StorageCar has neither PutMany, FinalizeReadOnly nor Close; "discard" for it is
    simply dropping the instance. *)
@@ -85,9 +85,9 @@ Outcomes(s, op) ==
          IF s.phase = "open"
            THEN {[res |-> {"ok"}, next |-> [s EXCEPT !.phase = "closed", !.fin = ~o.v1]]}
          ELSE IF s.phase = "ro"
-           \* property silent: a second finalisation may fail and leave the store readable, or close it
-           THEN {[res |-> {"ok", "err"}, next |-> s],
-                 [res |-> {"ok", "err"}, next |-> [s EXCEPT !.phase = "closed"]]}
+           \* "After Finalize ... every lookup returns an error": whatever the call reports (the header and
+           \* index are already written), the store is closed afterwards
+           THEN {[res |-> {"ok", "err"}, next |-> [s EXCEPT !.phase = "closed"]]}
          ELSE {[res |-> {"ok", "err"}, next |-> s]}
     [] op.op = "finalize_ro" ->
          IF s.phase = "open"
@@ -105,7 +105,7 @@ Outcomes(s, op) ==
          IF s.phase # "closed" THEN {}
          ELSE IF op.how = "same"
            THEN {[res |-> {"ok"}, next |-> [s EXCEPT !.phase = "open", !.fin = FALSE]]}
-         ELSE IF op.how = "roots_fewer" /\ Len(s.roots) = 0 THEN {}
+         ELSE IF op.how \in {"roots_fewer", "roots_codec"} /\ Len(s.roots) = 0 THEN {}
          ELSE IF op.how = "dpad" /\ o.v1 THEN {}        \* data padding is meaningless for CARv1 output
          ELSE {Frozen(s)}                              \* refused, file untouched
     [] OTHER -> {}
